@@ -1,12 +1,15 @@
 """C20 — fixed-precision integers (pkg/obifp) agree with exact arithmetic."""
-import json, itertools
+import json, itertools, os, re, hashlib, shutil
+import vlib
 from vlib import zlist
 
-PROPS = ["C20/Props.v"]
+PROPS = ["C20/Props.v", "C20/GenProps.v"]
 META = dict(
-    text="Rocq theorems over an executable line-by-line model of pkg/obifp: every shift count, add/sub/mul/div/cmp of the three widths exact and overflow-exact for all operands (Uint128.Mul: partial, see known finding; Uint128.QuoRem included); the model is tied to the code on every run by evaluating it with vm_compute on the same boundary-biased operand cases the real methods ran on.",
-    note="Trusted: Coq kernel + vm_compute; math/bits primitives modelled by their documented meaning; harness/generators. Proved for all operands: shifts (every count), add/sub, cmp, Mul64/Mul128x64/Mul256 (schoolbook, by induction over limb lists), Div256 (total correctness incl. fuel), QuoRem128x64. Uint128.Mul: partial (known finding: w1*w1 never examined). Bitwise ops and casts proved against Z.land/lor/lxor and value preservation. Uint128.QuoRem (64- and 128-bit divisors, trial quotient within one) total and exact.")
-TRUSTED = ["math/bits primitives (Add64, Sub64, Mul64, Div64, LeadingZeros64) are modelled by their documented exact meaning"]
+    text="Rocq theorems over an executable line-by-line model of pkg/obifp: every shift count, add/sub/mul/div/cmp of the three widths exact and overflow-exact for all operands (Uint128.Mul: partial, see known finding; Uint128.QuoRem included). The model is tied to the code twice on every run: (1) correspondence - the model is evaluated with vm_compute on the same boundary-biased operand cases the real methods ran on; (2) translation - tools/go2coq_obifp.go (go/parser + go/ast) re-translates uint64.go / uint128.go / uint256.go of the current working tree into Gallina (C20/Gen/Translated.v, 84 methods, none untranslated) and C20/GenProps.v re-proves, for every translated method, T_f = model f (84 theorems) plus the C20 theorems restated for the translated functions (8 theorems for the widest operation of each kind, 32 corollaries); a source change that alters a translated function breaks its equality theorem, the check then searches the ops of that method first and reports the failing input, or no-failing-input-found naming the theorem.",
+    note="Trusted: Coq kernel + vm_compute; math/bits primitives modelled by their documented meaning; harness/generators; the translator tools/go2coq_obifp.go (its reading of Go: uint = 64 bits, wraps written out as mod W / wrapi, log.Warnf ignored, log.Panicf = Panic, array index out of range = Panic, loop fuel from its table: shifts 4, Div 257/257, counting loops bound+1) - cross-checked by the unchanged correspondence run on the real code. Translated AND proved equal to the model (all 84 methods of the three files): Uint64 {Zero MaxValue IsZero Uint64 Uint128 Uint256 Set64 LeftShift64 RightShift64 Add64 Sub64 Mul64 LeftShift RightShift Add Sub Mul Cmp Equals LessThan GreaterThan LessThanOrEqual GreaterThanOrEqual And Or Xor Not AsUint64}, Uint128 {the same conversions/bitwise/comparisons, LeftShift RightShift Add Add64 Sub Mul Mul64 QuoRem QuoRem64 Div Div64 Mod Mod64 Cmp Cmp64}, Uint256 {the same conversions/bitwise/comparisons, LeftShift RightShift (whole-limb loop, by induction on fuel) Cmp Add Sub Mul (two counting loops over limb arrays, by symbolic execution in lock step with mul_rows) Div (two loops, by induction on fuel)}. Hypotheses of the equalities: shift counts 0 <= n < 2^64; QuoRem/Div/Mod of Uint128, Div and Mul of Uint256 need well-formed limbs (the written-out wraps are shown not to wrap). Hand-modelled only (no Go source in these three files): the pre-repair *_orig functions of the refuted theorems; the generic constructors of unint.go (ZeroUint/OneUint/From64: not modelled). Proved for all operands: shifts (every count), add/sub, cmp, Mul64/Mul128x64/Mul256 (schoolbook, by induction over limb lists), Div256 (total correctness incl. fuel), QuoRem128x64, Uint128.QuoRem (64- and 128-bit divisors, trial quotient within one) total and exact; bitwise ops and casts against Z.land/lor/lxor and value preservation. Uint128.Mul: partial (known finding: w1*w1 never examined). Equality proofs are insensitive to renamed locals, reordered independent statements, a > b written b < a, switch vs if/else, early return vs trailing return, for-post moved into the body; they are sensitive to: the order in which variables used by a loop are declared (argument order of the loop fixpoint), semantically neutral changes of a loop condition or case boundary, new methods (reported in coverage.translator, no theorem).")
+TRUSTED = ["math/bits primitives (Add64, Sub64, Mul64, Div64, LeadingZeros64) are modelled by their documented exact meaning",
+           "the Go-to-Gallina translator tools/go2coq_obifp.go (standard library go/parser + go/ast; own type inference; conventions in the header of C20/Gen/Translated.v) is trusted for the equality theorems of C20/GenProps.v; it is cross-checked on every run by the correspondence of the hand-written model with the real code",
+           "uint is taken to be 64 bits wide (amd64 / arm64)"]
 M64 = (1 << 64) - 1
 OPNAME = dict(shl="OShl", shr="OShr", add="OAdd", sub="OSub", mul="OMul", cmp="OCmp", lt="OLt", le="OLe", gt="OGt",
               ge="OGe", eq="OEq", **{"and": "OAnd", "or": "OOr", "xor": "OXor", "not": "ONot"}, to64="OTo64",
@@ -42,19 +45,39 @@ def gen_value(rng, w):
     return rng.getrandbits(w)
 
 
-def gen_cases(ctx, n_random):
+def gen_cases(ctx, n_random, only=None):
+    """only: list of (width, op) to restrict the random part to (targeted search); None = every op of every width."""
     rng = ctx.rng
-    cases = list(CORPUS)
+    cases = list(CORPUS) if only is None else []
     for w in (64, 128, 256):
+        ops_w = OPS[w] if only is None else [op for (ww, op) in only if ww == w and op in OPS[w]]
+        if not ops_w:
+            continue
         # every shift amount 0..w+64 on a few operands (exhaustive over n)
         for n in list(range(0, w + 66)) + [w + 127, w + 128, 511, 512, 1000]:
             for a in (val([M64] * (w // 64)), gen_value(rng, w)):
                 for op in ("shl", "shr"):
-                    cases.append(dict(w=w, op=op, a=a, b=0, n=n))
+                    if op in ops_w:
+                        cases.append(dict(w=w, op=op, a=a, b=0, n=n))
         for _ in range(n_random):
-            op = rng.choice(OPS[w])
+            op = rng.choice(ops_w)
             a, b = gen_value(rng, w), gen_value(rng, w)
-            if op in ("mul", "mul64", "div", "mod", "quorem", "div64", "mod64", "quorem64") and rng.random() < 0.6:
+            if op in ("cmp", "lt", "le", "gt", "ge", "eq", "cmp64", "sub") and rng.random() < 0.3:
+                # equal and nearly equal operands (the last case of every comparison chain; borrow chains of length w)
+                b = a if op != "cmp64" else a & M64
+                k = rng.random()
+                if k < 0.3:
+                    b = max(0, min((1 << (64 if op == "cmp64" else w)) - 1, b + rng.choice([-1, 1])))
+                elif k < 0.5 and w > 64 and op != "cmp64":
+                    b ^= 1 << (64 * rng.randrange(0, w // 64) + rng.choice([0, 63]))     # differ in exactly one limb
+            if op in ("mul", "mul64") and w > 64 and rng.random() < 0.35:
+                # products that just fit (or just do not): operand sizes complementary, carries through every limb
+                kb = rng.randrange(1, 65) if op == "mul64" else rng.randrange(1, w)
+                b = gen_value(rng, kb) if kb >= 64 else rng.getrandbits(kb) | (1 << (kb - 1))
+                ka = w - kb + rng.choice([-1, 0, 0, 1])
+                a = ((1 << max(ka, 1)) - 1) if rng.random() < 0.4 else rng.getrandbits(max(ka, 1)) | (1 << (max(ka, 1) - 1))
+                a &= (1 << w) - 1
+            elif op in ("mul", "mul64", "div", "mod", "quorem", "div64", "mod64", "quorem64") and rng.random() < 0.6:
                 # make products / quotients that are near the overflow boundary or small
                 b = gen_value(rng, rng.choice([8, 16, 32, 64, w // 2]))
             if op in ("div", "mod", "quorem", "div64", "mod64", "quorem64") and rng.random() < 0.5:
@@ -199,7 +222,7 @@ def known_key(c, o):
     return None
 
 
-def evaluate(ctx, cases, broken, label):
+def evaluate(ctx, cases, broken, label, corr=True):
     obs = ctx.vh_robust("c20", [to_vh(c) for c in cases], timeout=300, one_timeout=10)
     # direct oracle on the implementation
     nviol = 0
@@ -213,6 +236,8 @@ def evaluate(ctx, cases, broken, label):
             if nviol <= 3:
                 ctx.violation("%s_oracle_%d" % (label, i), dict(property="C20", kind="direct-oracle", case=c, hex=dict(a=hex(c["a"]), b=hex(c["b"])),
                                                               implementation=o, expected=expected(c)))
+    if not corr:
+        return obs, []
     # correspondence with the model
     ok_idx = [i for i, o in enumerate(obs) if o["kind"] != "crash"]
     bad, err = ctx.correspond(label, "From Coq Require Import ZArith List. Import ListNotations. Open Scope Z_scope.\nFrom OBI.C20 Require Import Model.",
@@ -224,7 +249,66 @@ def evaluate(ctx, cases, broken, label):
     return obs, mism
 
 
+# ---------------------------------------------------------------- translator (second tie between model and code)
+TRANSLATOR = os.path.join(vlib.VERIF, "tools", "go2coq_obifp.go")
+TRANSLATED_V = os.path.join(vlib.COQ, "theories", "C20", "Gen", "Translated.v")
+GENPROPS_V = os.path.join(vlib.COQ, "theories", "C20", "GenProps.v")
+
+
+def regen(ctx):
+    """Called by check.py before the Coq build: translate pkg/obifp/{uint64,uint128,uint256}.go of the CURRENT working
+    tree into C20/Gen/Translated.v (write-if-changed), so that C20/GenProps.v (T_f = model f, corollaries) is re-proved
+    against what the source says now."""
+    src = open(TRANSLATOR, "rb").read()
+    d = os.path.join(vlib.BUILD, "go2coq")
+    os.makedirs(d, exist_ok=True)
+    binp = os.path.join(d, "go2coq_" + hashlib.sha1(src).hexdigest()[:12])
+    if not os.path.exists(binp):
+        with open(os.path.join(d, "go.mod"), "w") as f:
+            f.write("module go2coq\n\ngo 1.23\n")
+        with open(os.path.join(d, "main.go"), "wb") as f:
+            f.write(src.replace(b"//go:build ignore\n", b"", 1))
+        rc, so, se, dt = vlib.sh("go build -o %s ." % binp, cwd=d, env=vlib.GOENV, timeout=600)
+        if rc != 0:
+            raise RuntimeError("translator build failed: %s" % se[-1500:])
+    rc, so, se, dt = vlib.sh([binp, vlib.REPO, TRANSLATED_V], timeout=120)
+    if rc != 0:
+        raise RuntimeError("translator failed: %s %s" % (so[-800:], se[-800:]))
+    untr = [l for l in so.splitlines() if l.startswith("UNTRANSLATED")]
+    m = re.search(r"\(\* translated: (.*?) \*\)", open(TRANSLATED_V).read())
+    translated = m.group(1).split() if m else []
+    proved = set(re.findall(r"^Theorem T_(\w+)_eq\b", vlib.strip_comments(open(GENPROPS_V).read()), re.M))
+    missing_thm = [t for t in translated if t.replace(".", "_") not in proved]
+    missing_fn = sorted(p for p in proved if p.replace("_", ".", 1) not in translated)
+    ctx.cov["translator"] = dict(functions_translated=len(translated), untranslated=untr,
+                                 translated_without_equality_theorem=missing_thm, equality_theorem_without_translation=missing_fn,
+                                 output="changed" if "WROTE" in so else "unchanged", wall_s=round(dt, 2))
+    ctx._c20_untranslated = untr
+
+
+def broken_theorems(broken):
+    """Name the theorem of GenProps.v / Props.v at which the Coq build stopped."""
+    names = []
+    for b in broken:
+        if b.get("kind") == "proof-obligation" and b.get("file") and b.get("line"):
+            path = b["file"] if os.path.isabs(b["file"]) else os.path.join(vlib.COQ, b["file"].lstrip("./"))
+            try:
+                lines = open(path).read().splitlines()
+            except OSError:
+                continue
+            for i in range(min(int(b["line"]), len(lines)) - 1, -1, -1):
+                mm = re.match(r"\s*(Theorem|Lemma)\s+(\w+)", lines[i])
+                if mm:
+                    b["theorem"] = mm.group(2)
+                    names.append(mm.group(2))
+                    break
+    return names
+
+
 def run(ctx, broken):
+    thm = broken_theorems(broken)
+    if thm:
+        ctx.cov["broken_theorems"] = thm
     nrand = 250 if ctx.quick else 6000
     cases = gen_cases(ctx, nrand)
     obs, mism = evaluate(ctx, cases, broken, "main")
@@ -239,16 +323,57 @@ def run(ctx, broken):
     ctx.cov["distribution"] = dist
     ctx.samples = [dict(case=dict(c, a=hex(c["a"]), b=hex(c["b"])), implementation=o) for c, o in list(zip(cases, obs))[:3] + list(zip(cases, obs))[-3:]]
     ctx.cov["model_vs_impl_mismatches"] = len(mism)
-    if mism and not ctx.violations:
-        # model != code but the direct oracle is satisfied on those inputs: search harder
-        more = gen_cases(ctx, 20000)
-        obs2, _ = evaluate(ctx, more, [], "search")
+    if (mism or thm) and not ctx.violations:
+        # model != code, or an equality T_f = f / a corollary no longer checks, but the direct oracle is satisfied so far:
+        # search harder — oracle only first (fast), the op of the broken theorem first
+        only = sorted({t for n in thm for t in theorem_ops(n)})
+        if only:
+            evaluate(ctx, gen_cases(ctx, 3000, only=only), [], "target", corr=False)
+        more, obs2 = [], []
         if not ctx.violations:
+            more = gen_cases(ctx, 20000)
+            obs2, _ = evaluate(ctx, more, [], "search", corr=False)
+        if not ctx.violations and mism:
             i = mism[0]
             broken.append(dict(kind="correspondence", name="corr:C20/%d/%s" % (cases[i]["w"], cases[i]["op"]), first_diverging_case=cases[i],
                                implementation=obs[i], n_diverging=len(mism)))
+        elif not ctx.violations:
+            # proof obligation broken, oracle and main correspondence satisfied: look for a diverging case of the (unchanged) model
+            sub = ctx.rng.sample(more, min(6000, len(more)))
+            _, mism2 = evaluate(ctx, sub, [], "searchcorr")
+            if mism2:
+                i = mism2[0]
+                broken.append(dict(kind="correspondence", name="corr:C20/%d/%s" % (sub[i]["w"], sub[i]["op"]), first_diverging_case=sub[i],
+                                   n_diverging=len(mism2)))
     elif mism:
         ctx.cov["note"] = "model and implementation diverge on %d cases (violations reported by the direct oracle)" % len(mism)
+
+
+METHOD_OP = dict(LeftShift="shl", RightShift="shr", Add="add", Sub="sub", Mul="mul", Cmp="cmp", LessThan="lt", LessThanOrEqual="le",
+                 GreaterThan="gt", GreaterThanOrEqual="ge", Equals="eq", And="and", Or="or", Xor="xor", Not="not", Uint64="to64",
+                 Uint128="to128", Uint256="to256", IsZero="iszero", AsUint64="as64", LeftShift64="lsh64", RightShift64="rsh64",
+                 Add64="add64", Mul64="mul64", QuoRem="quorem", QuoRem64="quorem64", Div="div", Mod="mod", Div64="div64", Mod64="mod64",
+                 Cmp64="cmp64")
+
+
+def theorem_ops(name):
+    """(width, op) pairs exercised by the method a theorem of GenProps.v is about (T_Uint128_Add_eq -> (128, add));
+    the low-level Uint64 helpers are reached through every width."""
+    m = re.match(r"[TL]_Uint(64|128|256)_(\w+?)(_eq)?$", name)
+    if not m:
+        return []
+    w, meth = int(m.group(1)), m.group(2)
+    op = METHOD_OP.get(meth)
+    res = []
+    if op and op in OPS[w]:
+        res.append((w, op))
+    if w == 64 and meth in ("LeftShift64", "RightShift64"):
+        res += [(ww, o) for ww in (64, 128, 256) for o in ("shl", "shr")]
+    if w == 64 and meth in ("Add64", "Sub64", "Mul64"):
+        res += [(64, "add"), (64, "sub"), (64, "mul")]
+    if meth == "Cmp":
+        res += [(w, o) for o in ("lt", "le", "gt", "ge", "eq")]
+    return res
 
 
 def replay(ctx, rp):
